@@ -196,6 +196,7 @@ pub struct SchedRt(pub Arc<Sched>);
 
 impl Runtime for SchedRt {
     fn before(&self, ev: &Event) {
+        let _sus = crate::allocs::Suspend::new();
         let tid = my_tid();
         if tid == usize::MAX {
             return;
@@ -230,6 +231,7 @@ impl Runtime for SchedRt {
     }
 
     fn after(&self, result: usize, ok: bool) {
+        let _sus = crate::allocs::Suspend::new();
         let tid = my_tid();
         if tid == usize::MAX {
             return;
@@ -262,17 +264,22 @@ impl Runtime for SchedRt {
     }
 
     fn note(&self, ev: &Event) {
+        let _sus = crate::allocs::Suspend::new();
         let tid = my_tid();
         let s = &self.0;
         let mut g = s.inner.lock().unwrap();
         if ev.kind == Kind::Unlock {
             g.owner.remove(&ev.addr);
         }
+        if ev.kind == Kind::Dealloc {
+            crate::allocs::t_forget(ev.addr);
+        }
         let t = if tid == usize::MAX { 0 } else { tid };
         g.trace.push(Rec::Note { tid: t, ev: ev.clone() });
     }
 
     fn cv_block(&self, cv: usize, mutex: usize) {
+        let _sus = crate::allocs::Suspend::new();
         let tid = my_tid();
         let s = &self.0;
         let mut g = s.inner.lock().unwrap();
